@@ -53,6 +53,25 @@ CLAIMED = {
              "needed for the TLS 1.0 S1/S2 split); RSA/pre-master branches modelled but not claimed; extraction, OCaml driver and the crypto pipe oracle for the correspondence.",
         technique="Coq proof (loop invariants over the RFC's P_hash stream, slice algebra, case analysis over cipher classes) + oracle-backed correspondence on installed keys",
         design="3 C15"),
+    "C05": dict(
+        text="Proof (partial): Coq theorems over the model of Session.handle_packet / extract_*_buf / get_tls_records: C05_segmentation_and_duplicates (per direction: ANY "
+             "cut of a well-framed record stream into segments, from ANY initial sequence number modulo 2^32 -- streams across 2^32 included -- with ANY retransmitted "
+             "exact duplicates, delivers exactly the records, in order), C05_session_dedupe (the session's duplicate memory is that machine), C05_handler_sees_trace and "
+             "C05_directions_independent (the record handler sees exactly the extraction trace; each direction's part is what its own packets produce: interleaving is "
+             "irrelevant). Closed under the global context. (c) bounded reordering: no theorem yet -- decided by the exhaustive displacement sweep (<= 3 positions) of "
+             "the check on a real Session object; one residual open finding (first data segment of a direction displaced).",
+        note="Trusted: Coq kernel; hand-written reassembly model tied by correspondence (in-process records handed to handle_tls_record of a real Session; end-to-end output "
+             "bytes under five segmentation schedules); streams < 2^31 bytes per direction; records well framed.",
+        technique="Coq proof (invariant of the per-direction reassembly machine, serial-number arithmetic with lia) + exhaustive cut-set / duplicate / displacement sweeps",
+        design="3 C05"),
+    "C08": dict(
+        text="Proof (TLS over TCP; QUIC by sweep only): Coq theorem C08_tls -- for every crypto instance, capture, key log and option set: cut the capture after any item "
+             "(no decryption-secrets block after the cut); every session of the cut run is the same-position session of the full run and the segments it exports, hence "
+             "each direction's byte stream, are a prefix of what the full run exports for it; decryptable or not. By C08_session_fold / C08_builder_fold (left folds that "
+             "only append). Closed under the global context. The check sweeps every cut position of reference captures on the implementation.",
+        note="Trusted: Coq kernel; models of main.run (TCP part), Session, OutputBuilder tied by byte-exact output correspondence; key log by file or by blocks inside the cut part.",
+        technique="Coq proof (prefix-monotonicity of a chain of left folds) + exhaustive cut sweep on the implementation",
+        design="3 C08"),
 }
 
 NOT_YET = "not claimed yet in this revision: model and theorems under construction (see DESIGN.md section 7)"
